@@ -3,24 +3,38 @@
 (* C13 -- group_sound_events returns the connected components of the       *)
 (* similarity graph.                                                       *)
 (*                                                                         *)
-(* A case is c = [n |-> number of sound events,                            *)
-(*                e |-> sequence of pairs <<i, j>>, 1 <= i < j <= n]        *)
-(* i.e. a symmetric, irreflexive relation on the input positions 1..n      *)
-(* (the comparison function of the binder answers by looking the unordered *)
-(* pair up in e).  An output is a sequence of sequences of input positions *)
-(* (0 = "not one of the input events") and the log of the comparison       *)
-(* function's calls as pairs of input positions (0 = not an input event).  *)
+(* A case is c = [n  |-> number of list positions,                         *)
+(*                id |-> sequence of length n: the identifier of the sound *)
+(*                       event held at each position.  Positions with the  *)
+(*                       same identifier are TWINS: the list holds the     *)
+(*                       same event (or an equal one, same uuid) twice,    *)
+(*                e  |-> sequence of pairs <<a, b>>, a <= b, of identifiers]*)
+(* The comparison function of the binder sees events, not positions: it    *)
+(* answers f(a, b) by looking the unordered identifier pair up in e, so    *)
+(* the relation on positions is twin-consistent by construction            *)
+(* (rel(i, k) = rel(j, k) for twins i, j; rel(i, j) = f(a, a), both values *)
+(* are generated).  The similarity graph of the statement is the graph on  *)
+(* the list POSITIONS: Edge(c, i, j) below.  Without twins id = <<1..n>>   *)
+(* and e is simply a symmetric irreflexive relation on positions.          *)
+(*                                                                         *)
+(* An output is a sequence of sequences of identifiers (0 = "not one of    *)
+(* the input events") -- what is observed are events, not positions -- and *)
+(* the log of the comparison function's calls as identifier pairs.         *)
 (***************************************************************************)
 EXTENDS Lattice, TLC
 
 Nodes(c) == 1..c.n
-Edge(c, i, j) == \E k \in DOMAIN c.e : c.e[k] = <<i, j>> \/ c.e[k] = <<j, i>>
+Ids(c)   == Range(c.id)
+IdEdge(c, a, b) == \E k \in DOMAIN c.e : c.e[k] = <<a, b>> \/ c.e[k] = <<b, a>>
+Edge(c, i, j)   == i # j /\ IdEdge(c, c.id[i], c.id[j])
+Mult(c, a)      == Cardinality({i \in Nodes(c) : c.id[i] = a})          \* how often event a occurs in the list
+WellFormed(c)   == /\ Len(c.id) = c.n
+                   /\ \A k \in DOMAIN c.e : /\ c.e[k][1] \in Ids(c) /\ c.e[k][2] \in Ids(c) /\ c.e[k][1] <= c.e[k][2]
+                                            /\ (c.e[k][1] = c.e[k][2] => Mult(c, c.e[k][1]) >= 2)
 
 \* neighbour sets, computed once per case.  TLCEval forces the value: TLC otherwise keeps [i \in S |-> e] as a
 \* lambda and re-evaluates e at every application (exponential in the recursive definitions below)
-NbF(c) == TLCEval([i \in 1..c.n |->
-             {c.e[k][2] : k \in {k \in DOMAIN c.e : c.e[k][1] = i}} \cup
-             {c.e[k][1] : k \in {k \in DOMAIN c.e : c.e[k][2] = i}}])
+NbF(c) == TLCEval([i \in 1..c.n |-> {j \in 1..c.n : Edge(c, i, j)}])
 
 \* reachability: iterate S := S \cup N(S) at most n times (a chain has at most n - 1 links)
 RECURSIVE Grow(_, _, _)
@@ -47,47 +61,73 @@ LawEquivalence(c) ==
     /\ \A i \in Nodes(c) : i \in cf[i]
     /\ \A i, j \in Nodes(c) : j \in cf[i] => i \in cf[j]
     /\ \A i, j, k \in Nodes(c) : (j \in cf[i] /\ k \in cf[j]) => k \in cf[i]
-LawContainsEdges(c) == LET cf == CompF(c) IN \A k \in DOMAIN c.e : c.e[k][2] \in cf[c.e[k][1]]
+LawContainsEdges(c) == LET cf == CompF(c) IN \A i, j \in Nodes(c) : Edge(c, i, j) => j \in cf[i]
 \* least: every labelling that never separates an edge never separates connected nodes
 LawLeast(c) ==
     c.n <= 4 => LET cf == CompF(c) IN
                 \A f \in [Nodes(c) -> Nodes(c)] :
-                   (\A k \in DOMAIN c.e : f[c.e[k][1]] = f[c.e[k][2]])
+                   (\A i, j \in Nodes(c) : Edge(c, i, j) => f[i] = f[j])
                    => \A i, j \in Nodes(c) : j \in cf[i] => f[i] = f[j]
 LawWarshall(c) == LET cf == CompF(c)  w == WF(c, c.n) IN \A i, j \in Nodes(c) : (j \in cf[i]) <=> w[<<i, j>>]
 LawNoEdgeNoLink(c) == Len(c.e) = 0 => LET cf == CompF(c) IN \A i, j \in Nodes(c) : (j \in cf[i]) <=> i = j
+\* twins: the relation on positions cannot tell them apart; twins that are similar to anything share a component
+LawTwins(c) == LET cf == CompF(c) IN
+    \A i, j \in Nodes(c) : (i # j /\ c.id[i] = c.id[j]) =>
+        /\ \A k \in Nodes(c) \ {i, j} : Edge(c, i, k) <=> Edge(c, j, k)
+        /\ (Edge(c, i, j) \/ \E k \in Nodes(c) \ {i, j} : Edge(c, i, k)) => j \in cf[i]
 
 (***************************************************************************)
-(* Req, clause by clause.  seqs: the returned sequences as input positions;*)
-(* calls: the logged comparison_fn arguments.                              *)
+(* Req, clause by clause.  seqs: the returned sequences as identifiers;    *)
+(* calls: the logged comparison_fn arguments as identifiers.               *)
+(* The expected blocks are the connected components over POSITIONS; a      *)
+(* block is observed as the sequence of the identifiers it holds, in input *)
+(* order.  Blocks are compared as bags of identifiers (twins share one).   *)
 (***************************************************************************)
 ReqClauses == {"OnlyInputEvents", "EveryEventOnce", "NoEmptySequence", "OrderKept",
                "SameSequenceIffConnected", "EmptyGivesNone", "CallsOnDistinctInputs"}
 Clauses == {"Returns"} \cup ReqClauses
 
-InSeq(sq, i) == \E k \in DOMAIN sq : sq[k] = i
+Occ(sq, a) == Cardinality({k \in DOMAIN sq : sq[k] = a})
+\* sq can be read off the list at strictly increasing positions (greedy earliest match)
+RECURSIVE IsSubseq(_, _, _, _)
+IsSubseq(sq, k, ids, from) ==
+    IF k > Len(sq) THEN TRUE
+    ELSE LET P == {p \in from..Len(ids) : ids[p] = sq[k]}
+         IN  P # {} /\ IsSubseq(sq, k + 1, ids, SetMin(P) + 1)
+Roots(c, cf) == {i \in Nodes(c) : i = SetMin(cf[i])}                      \* one position per component
+SameBag(c, sq, block) == Len(sq) = Cardinality(block) /\
+                         \A a \in Ids(c) : Occ(sq, a) = Cardinality({j \in block : c.id[j] = a})
+
 ClauseHolds(cl, c, seqs, calls) ==
-    CASE cl = "OnlyInputEvents" -> \A s \in DOMAIN seqs : \A k \in DOMAIN seqs[s] : seqs[s][k] \in Nodes(c)
-      [] cl = "EveryEventOnce"  -> \A i \in Nodes(c) :
+    CASE cl = "OnlyInputEvents" -> \A s \in DOMAIN seqs : \A k \in DOMAIN seqs[s] : seqs[s][k] \in Ids(c)
+      \* every list entry in exactly one sequence: an event occurs in the output as often as in the list
+      [] cl = "EveryEventOnce"  -> \A a \in Ids(c) :
                                      Cardinality({p \in UNION {{<<s, k>> : k \in DOMAIN seqs[s]} : s \in DOMAIN seqs} :
-                                                    seqs[p[1]][p[2]] = i}) = 1
+                                                    seqs[p[1]][p[2]] = a}) = Mult(c, a)
       [] cl = "NoEmptySequence" -> \A s \in DOMAIN seqs : Len(seqs[s]) > 0
-      [] cl = "OrderKept"       -> \A s \in DOMAIN seqs : \A k, l \in DOMAIN seqs[s] : k < l => seqs[s][k] < seqs[s][l]
+      [] cl = "OrderKept"       -> \A s \in DOMAIN seqs : IsSubseq(seqs[s], 1, c.id, 1)
+      \* the returned sequences are exactly the components: same bags of events, with the same multiplicities
       [] cl = "SameSequenceIffConnected" ->
-             LET cf == CompF(c) IN
-             \A i, j \in Nodes(c) : (\E s \in DOMAIN seqs : InSeq(seqs[s], i) /\ InSeq(seqs[s], j)) <=> (j \in cf[i])
+             LET cf == CompF(c)  R == Roots(c, cf) IN
+             /\ \A s \in DOMAIN seqs : \E r \in R :
+                   /\ SameBag(c, seqs[s], cf[r])
+                   /\ Cardinality({t \in DOMAIN seqs : SameBag(c, seqs[t], cf[r])}) =
+                      Cardinality({q \in R : SameBag(c, seqs[s], cf[q])})
+             /\ \A r \in R : \E s \in DOMAIN seqs : SameBag(c, seqs[s], cf[r])
       [] cl = "EmptyGivesNone"  -> c.n = 0 => Len(seqs) = 0
+      \* distinct list entries: two different events, or one event that the list holds at two positions
       [] cl = "CallsOnDistinctInputs" ->
-             \A k \in DOMAIN calls : calls[k][1] \in Nodes(c) /\ calls[k][2] \in Nodes(c) /\ calls[k][1] # calls[k][2]
+             \A k \in DOMAIN calls : /\ calls[k][1] \in Ids(c) /\ calls[k][2] \in Ids(c)
+                                     /\ (calls[k][1] = calls[k][2] => Mult(c, calls[k][1]) >= 2)
 
 (***************************************************************************)
 (* Acceptance of an observation: out.runs is a sequence of                 *)
 (*   [raised: string ("" = returned), seqs, calls]                          *)
-(* one per way the binder dressed the same graph as sound events.          *)
+(* one per way the binder dressed the same case as sound events.           *)
 (***************************************************************************)
 Holds(cl, o) ==
     \A r \in DOMAIN o.out.runs :
        LET run == o.out.runs[r] IN
-       IF cl = "Returns" THEN run.raised = ""
+       IF cl = "Returns" THEN WellFormed(o.in) /\ run.raised = ""
        ELSE run.raised = "" => ClauseHolds(cl, o.in, run.seqs, run.calls)
 =============================================================================
